@@ -352,6 +352,31 @@ V('pair-store-zero', ['C19'], 'R-PAIR', SW, ("    accessor[former, latter_value]
 V('repr-latter-map-other-row', ['C14'], 'R-REPR', GR, ("        vertex = accessor[location]\n        latter_map[location]", "        vertex = accessor[index]\n        latter_map[location]"))
 V('repr-matrix-transposed', ['C14'], 'R-REPR', GR, ("        matrix[vertex_index][vertex[vertex >= 0]] = 1", "        matrix[vertex[vertex >= 0], vertex_index] = 1"))
 
+# ---------------------------------------------------------------- R-MSG / R-TIGHT
+V('msg-variant-drops-last-bit', ['C01', 'C05', 'C04'], 'R-MSG', SW, ("quotient = bit_to_number(binary_message, verbose=verbose)", "quotient = bit_to_number(binary_message[:-1], verbose=verbose)"))
+V('msg-cursor-starts-at-1', ['C01', 'C05', 'C04'], 'R-MSG', SW, ("        location = 0\n        while location < len(binary_message):", "        location = 1\n        while location < len(binary_message):"))
+V('msg-result-width', ['C01', 'C05'], 'R-MSG', SW, ("number_to_bit(decimal_number=quotient, bit_length=bit_length)", "number_to_bit(decimal_number=quotient, bit_length=bit_length + 1)"))
+V('msg-fast-output-shape', ['C01', 'C05'], 'R-MSG|R-AHEAD', SW, ("message_location, binary_message = 0, zeros(shape=(bit_length,), dtype=int)", "message_location, binary_message = 0, zeros(shape=(bit_length + 1,), dtype=int)"))
+V('tight-extra-disjunct', ['C04'], 'R-TIGHT', SW, ("        while quotient != \"0\":", "        while quotient != \"0\" or len(where(accessor[vertex_index] >= 0)[0]) == 1:"))
+V('twin-tight-or-false', ['C04', 'C01', 'C05'], None, SW, ("        while location < len(binary_message):", "        while location < len(binary_message) or False:"), kind='benign')
+
+# ---------------------------------------------------------------- R-RECOMB
+V('recomb-last-segment-dropped', ['C09', 'C08'], 'R-RECOMB', SW, ("        repaired_dna_sequence += split_sequences[-1]\n", ""))
+V('recomb-range-full', ['C09', 'C08'], 'R-RECOMB', SW, ("        for index in range(len(split_sequences) - 1):", "        for index in range(len(split_sequences) - 2):"))
+V('recomb-count-from-0', ['C09', 'C08'], 'R-RECOMB', SW, ("    repaired_results, count = set(), 1", "    repaired_results, count = set(), 0"))
+V('recomb-segment-wrong-symbol', ['C09', 'C08'], 'R-RECOMB', SW, ("            split_sequences[-1] += nucleotide\n", "            split_sequences[-1] += nucleotides[used_indices[0]]\n"))
+V('recomb-fragment-order', ['C09', 'C08'], 'R-RECOMB', SW, ("repaired_dna_sequence += split_sequences[index] + fragments[index]", "repaired_dna_sequence += fragments[index] + split_sequences[index]"))
+
+# ---------------------------------------------------------------- R-MAX / R-ARITY / R-KEEP / R-CASCADE
+V('max-argmin-column', ['C19'], 'R-MAX', SW, ("former_value, latter_value = former % len(nucleotides), argmax(scores[former])", "former_value, latter_value = former % len(nucleotides), argmax(-scores[former])"))
+V('max-row-from-nonzero', ['C19'], 'R-MAX', SW, ("vertex_indices = unique(where(scores == max(scores))[0])", "vertex_indices = unique(where(scores > 0)[0])"))
+V('arity-early-return-list', ['C10'], 'R-ARITY', GR, ("    for r_nucleotide in list(filter(", "    if len(used_indices) == 0:\n        return repair_info\n\n    for r_nucleotide in list(filter("))
+V('keep-no-saved-test', ['C03'], 'R-KEEP', GR, ("                    if (latter_vertex not in remove_vertices) and (latter_vertex in saved_vertices):", "                    if latter_vertex not in remove_vertices:"))
+V('cascade-wrong-variable', ['C03', 'C04'], 'R-CASCADE', SW, ("new_pairs += [(i, former_index) for i in obtain_formers(former_index, observed_length)]", "new_pairs += [(i, former_index) for i in obtain_formers(latter_index, observed_length)]"))
+V('fix-buffer-hoisted', ['C03', 'C04'], 'R-FIX', SW, ("    times, nucleotides = 1, \"ACGT\"\n\n    while True:", "    times, nucleotides = 1, \"ACGT\"\n    new_vertices = zeros(shape=(int(len(nucleotides) ** observed_length),), dtype=bool)\n\n    while True:"),
+  ("        new_vertices, monitor = zeros(shape=(int(len(nucleotides) ** observed_length),), dtype=bool), Monitor()", "        monitor = Monitor()"))
+V('fix-bounded-rounds', ['C03', 'C04'], 'R-FIX', SW, ("    times, nucleotides = 1, \"ACGT\"\n\n    while True:", "    times, nucleotides = 1, \"ACGT\"\n\n    while times <= observed_length:"))
+
 # ---------------------------------------------------------------- benign twins (every property must stay exit 0)
 ALL = ['C%02d' % i for i in range(1, 21)]
 for name, fn in twins.TWINS.items():
